@@ -110,6 +110,12 @@ bucket_merge(Bucket *s1, Bucket *s2, Bucket *s3)
   mapping = i1.usesValue | i2.usesValue | i3.usesValue;
   set = !mapping;
 
+#ifdef BTREES_VERIF
+  if (verif_alloc_should_fail()) {
+    PyErr_NoMemory();
+    goto err;
+  }
+#endif
   if (mapping)
     r = (Bucket *)PyObject_CallObject((PyObject *)&BucketType, NULL);
   else
